@@ -10,7 +10,7 @@ import "strconv"
 func Harness_parse_numbers_concrete() {
 	toks := []string{"0", "1", "-1", "+1", "0.1", "0.2", "0.3", "0.7", "1.1", "1.15", "4.35", "8.2", "-0.3", "2.675", "1.005",
 		"0.003", "123.456", "1e3", "1E3", "1e-3", "-2.5e-7", "1.", ".5", "-.5", "100", "1200", "0.000001", "9007199254740993",
-		"3.141592653589793", "2.2250738585072014e-308", "1.7976931348623157e308", "0.30000000000000004", "1e22", "1e23", "5e-324", "179.9999999999"}
+		"3.141592653589793", "010", "0100", "-0100", "+0777", "00012", "0144", "08", "019", "2.2250738585072014e-308", "1.7976931348623157e308", "0.30000000000000004", "1e22", "1e23", "5e-324", "179.9999999999"}
 	src := "h:\n"
 	for i, t := range toks {
 		src += "  n" + strconv.Itoa(i) + ": " + t + "\n"
